@@ -176,6 +176,7 @@ def check(ctx):
     ctx.attempt(_warnings)
     ctx.attempt(_tract_sharing)
     ctx.attempt(forward.check_all, module_suffixes=('tract.tract', 'tract.tract_parse', 'plssdesc.plss_parse', 'plssdesc.plssdesc', 'trs.trs'))
+    ctx.attempt(common.flag_prefix_tests)
     ctx.attempt(common.embedded_case_consistency, modules=('rgxlib.warnings',))
     ctx.attempt(common.clause_purity, [f for f in ctx.repo.funcs.values() if f.module.name.endswith(('trs.trs','tract.tract','plssdesc.plss_parse'))])
     ctx.attempt(common.parallel_shapes, [f for f in ctx.repo.funcs.values() if f.module.name.endswith(('trs.trs','tract.tract','plssdesc.plss_parse'))])
